@@ -38,7 +38,9 @@ def draw_case(data, tier, converge=False):
     n = list(data.draw(st.sampled_from(adm)))
     case = {'fam': fam, 'N': N, 'terms': terms, 'n': n, 'seed': data.draw(st.integers(0, 9999)),
             'dtype': 'complex128' if any(isinstance(t['amp'], dict) for t in terms) or data.draw(st.integers(0, 3)) == 0 else 'float64',
-            'nsplit': data.draw(st.sampled_from([1, 1, 2, 3])), 'precompute': data.draw(st.sampled_from([False, False, True]))}
+            'nsplit': data.draw(st.sampled_from([1, 1, 2, 3])), 'precompute': data.draw(st.sampled_from([False, False, True])),
+            # scalar prefactors kept in the factor of each MPO (the couplings inside are divided by them, so H is unchanged)
+            'fscales': [data.draw(st.sampled_from([1, 2, 0.5, 3, 1])) for _ in range(3)]}
     if converge:
         case['project'] = data.draw(st.booleans())
         case['method'] = data.draw(st.sampled_from(['1site', '2site']))
@@ -54,11 +56,19 @@ def draw_case(data, tier, converge=False):
 
 def hamiltonian_forms(case):
     fam, N = case['fam'], case['N']
+    fs = case.get('fscales', [1, 1, 1])
+
+    def scaled(terms, c):
+        if c == 1:
+            return HG.build_mpo(terms, fam, N)
+        div = lambda a: {'re': a['re'] / c, 'im': a['im'] / c} if isinstance(a, dict) else a / c
+        return c * HG.build_mpo([dict(t, amp=div(t['amp'])) for t in terms], fam, N)
+
     H1 = HG.build_mpo(case['terms'], fam, N)
     if case['nsplit'] == 1:
-        return H1, H1
+        return H1, scaled(case['terms'], fs[0])
     groups = HG.split_terms(case['terms'], case['nsplit'])
-    return H1, [HG.build_mpo(g, fam, N) for g in groups]
+    return H1, [scaled(g, fs[k % len(fs)]) for k, g in enumerate(groups)]
 
 
 def start_state(case, full=False):
